@@ -2,7 +2,6 @@ package eng
 
 import (
 	"fmt"
-	"math"
 	"time"
 )
 
@@ -36,6 +35,7 @@ type Profile struct {
 	PExtra     int // % of structs with unnamed destination fields
 	Kinds      []string
 	NoNot      bool
+	FETags     bool // struct fields also carry form/query/env tags
 }
 
 func DefaultProfile() Profile {
@@ -73,7 +73,7 @@ func (g *Gen) leaf(kind string) Leaf {
 	case KInt, KInt64:
 		return Leaf{Kind: kind, I: Pick(r, []int64{0, 1, -1, 5, 7, 10, 42, 100, -50, 1 << 40})}
 	case KInt32:
-		return Leaf{Kind: kind, I: Pick(r, []int64{0, 1, -1, 5, 7, 10, 42, 100, -50, math.MaxInt32})}
+		return Leaf{Kind: kind, I: Pick(r, []int64{0, 1, -1, 5, 7, 10, 42, 100, -50, 1 << 20})} // (not MaxInt32: the DSL's `add` PostTransform must not overflow)
 	case KFloat64:
 		return Leaf{Kind: kind, F: Pick(r, []float64{0, 1, -1, 2.5, 3.25, 10, 1e10, -0.5, 100})}
 	case KFloat32:
@@ -343,6 +343,14 @@ func (g *Gen) strct(depth int) *Node {
 			if r.P(40) {
 				f.Tags["json"] = "j_" + k
 			}
+			if g.P.FETags {
+				if r.P(35) {
+					f.Tags["form"] = "f_" + k
+				}
+				if r.P(35) {
+					f.Tags["query"] = "q_" + k
+				}
+			}
 		}
 		n.Fields = append(n.Fields, f)
 	}
@@ -409,11 +417,25 @@ func ProfileByName(name string) Profile {
 		p.PLayout = 50
 		p.PPrefill = 50
 		p.PExtra = 60
+	case "fe":
+		p.FETags = true
+		p.PTags = 65
+		p.PStruct = 8
+		p.PSlice = 25
+		p.PCustom = 0
+		p.PPre = 2
+		p.PPT = 8
+		p.PUserTest = 10
+		p.MaxDepth = 2
 	case "C10":
 		p.PTags = 70
 		p.PIssuePath = 15
 		p.PStruct = 40
-		p.PSlice = 30
+		p.PSlice = 35
+		p.MaxDepth = 5 // deep paths: the path builder must grow beyond its initial capacity
+		p.MaxFields = 2
+		p.MaxElems = 2
+		p.PInvalid = 45
 	}
 	return p
 }
